@@ -35,7 +35,9 @@ SUBCLASS = {("bool", "int")}
 
 def _kind_is(kind, cls):
     """is a value of exactly kind `kind` an instance of builtin class `cls`?"""
-    if kind in ("none", "other"):
+    if kind == "none":
+        return cls in ("object", "NoneType")
+    if kind == "other":
         return cls == "object"
     k = KCLASS[kind]
     return cls == "object" or k == cls or (k, cls) in SUBCLASS
@@ -470,6 +472,10 @@ def check_xml_tables(ctx, an, model):
                 par = getattr(n.ast, "_parent", None)
                 if isinstance(par, ast.DictComp) and par.value is n.ast:
                     keyed = _is_tag_of(par.key, child)
+                elif isinstance(par, ast.Tuple) and len(par.elts) == 2 and par.elts[1] is n.ast and isinstance(getattr(par, "_parent", None), (ast.GeneratorExp, ast.ListComp)) \
+                        and par._parent.elt is par and isinstance(getattr(par._parent, "_parent", None), ast.Call) \
+                        and isinstance(par._parent._parent.func, ast.Name) and par._parent._parent.func.id in ("dict", "OrderedDict"):
+                    keyed = _is_tag_of(par.elts[0], child)      # dict((sub.tag, decode(sub)) for sub in ele)
                 else:
                     nm = par.targets[0].id if isinstance(par, ast.Assign) and len(par.targets) == 1 and isinstance(par.targets[0], ast.Name) else None
                     for x in ast.walk(fe.node):
@@ -483,6 +489,9 @@ def check_xml_tables(ctx, an, model):
                 kept = False
                 if isinstance(par, ast.ListComp) and par.elt is n.ast:
                     kept = True
+                elif isinstance(par, ast.GeneratorExp) and par.elt is n.ast and isinstance(getattr(par, "_parent", None), ast.Call) \
+                        and isinstance(par._parent.func, ast.Name) and par._parent.func.id in ("list", "tuple") and len(par._parent.args) == 1:
+                    kept = True             # list(decode(sub) for sub in ele)
                 elif isinstance(par, ast.Call) and isinstance(par.func, ast.Attribute) and par.func.attr == "append":
                     kept = True
                 elif isinstance(par, ast.Assign) and len(par.targets) == 1 and isinstance(par.targets[0], ast.Name):
